@@ -147,6 +147,7 @@ def parse_segments(text, version=None, encoding_chars=None, validation_level=Non
     for s in text.split(segment_sep):
         if len(s) > 0:
             segment_name = s[:3]
+            saved_refs, saved_parent = list(parents_refs), current_parent
             for x in xrange(len(parents_refs)):
                 if not find_groups:
                     segment = parse_segment(s.strip(), version, encoding_chars, validation_level)
@@ -192,6 +193,16 @@ def parse_segments(text, version=None, encoding_chars=None, validation_level=Non
                         else:
                             current_parent.add(segment)
                         break
+            else:
+                if find_groups:
+                    # the segment is not part of the message structure (e.g. a Z segment): keep it where it
+                    # has been found instead of dropping it
+                    parents_refs, current_parent = saved_refs, saved_parent
+                    segment = parse_segment(s.strip(), version, encoding_chars, validation_level)
+                    if current_parent is None:
+                        segments.append(segment)
+                    else:
+                        current_parent.add(segment)
     return segments
 
 
